@@ -799,6 +799,11 @@ func ruleParseErr(c *Ctx) {
 				}
 				for _, use := range *ex.Referrers() {
 					if !c.onNilErrorPath(call, use) {
+						// handing the tree out through a variable is not a use, provided the same function returns
+						// parseText's error as it is on every path (the caller then decides before looking at the tree)
+						if st, isStore := use.(*ssa.Store); isStore && st.Val == ssa.Value(ex) && returnsErrorOf(call) {
+							continue
+						}
 						okUse = false
 					}
 				}
@@ -1367,4 +1372,29 @@ func (c *Ctx) checkDigitClass() {
 		}
 	}
 	c.ok(key, c.pos(fn.Pos()), fname(fn), fmt.Sprintf("a number starts and continues exactly on ASCII 0-9 (%d probe runes incl. other Unicode digits, %d run predicate(s))", len(probes), len(preds)))
+}
+
+
+// returnsErrorOf: every return of the call's function yields the call's own error result.
+func returnsErrorOf(call *ssa.Call) bool {
+	fn := call.Parent()
+	var errv ssa.Value
+	for _, ref := range *call.Referrers() {
+		if ex, ok := ref.(*ssa.Extract); ok && isErrorType(ex.Type()) {
+			errv = ex
+		}
+	}
+	if errv == nil {
+		return false
+	}
+	rets := returnsOf(fn)
+	if len(rets) == 0 {
+		return false
+	}
+	for _, r := range rets {
+		if len(r.Results) == 0 || retVal(r, len(r.Results)-1) != errv {
+			return false
+		}
+	}
+	return true
 }
